@@ -9,7 +9,10 @@ for d in sorted(glob.glob(os.path.join(V, "seeded", "*"))):
     m = json.load(open(os.path.join(d, "meta.json")))
     c = m.get("confirmed_by_lead", {})
     checks = c.get("checks", {}) or {}
+    sup = m.get("superseded")
     caught = "; ".join(f"{k}: {', '.join(v['clauses'][:4])}" if v["caught"] else f"{k}: NOT caught" for k, v in checks.items())
+    if sup:
+        caught = "superseded by a repair (" + str(sup.get("by", sup) if isinstance(sup, dict) else sup)[:80] + "); caught before it"
     def short(t, n):
         t = (t or "").replace("\n", " ").replace("|", "/")
         return t[:n] + ("..." if len(t) > n else "")
